@@ -89,6 +89,11 @@ def observe_case(term, sp, res, deep=False):
     emitted = str(p)
     info['outcome'] = 'ok'
     info['emitted'] = emitted
+    if res.get('ty'):
+        info['drift_type'] = (p._get_type().name != res['ty'])
+        em = res.get('emit')
+        if em is not None and tuple(em) != (-1,):
+            info['drift_text'] = (''.join(map(chr, em)) != emitted)
     if not res['ok']:
         fails.append(('accepted', {'observed': 'ok', 'emitted': emitted, 'expected_ex': sorted(res['ex'])}))
         return fails, info
@@ -193,6 +198,15 @@ def judge(payload, params):
             stats['outcome:' + (oc if oc in ('ok', 'skipped', 'ok-ref-uncompilable') else 'raise')] += 1
             if info.get('calibrated'):
                 stats['calibrated'] += 1
+            if 'drift_type' in info:
+                stats['drift:type-compared'] += 1
+                stats['drift:type-differs'] += int(info['drift_type'])
+            if 'drift_text' in info:
+                stats['drift:text-compared'] += 1
+                stats['drift:text-differs'] += int(info['drift_text'])
+                if info['drift_text'] and len(samples) < 6:
+                    samples.append({'drift': True, 'term': B.render(term), 'emitted': info.get('emitted'),
+                                    'layer_I_text': ''.join(map(chr, res['emit']))})
             for facet, detail in fails:
                 stats['facet:' + facet] += 1
                 if facet in facets or facet == 'oracle':
